@@ -365,7 +365,7 @@ class Body:
             ps = self.d.get("promos", [])
             if k["promo"] < len(ps):
                 cs = ps[k["promo"]]
-                pick = [c for c in cs if "s" in c or "i" in c]
+                pick = [c for c in cs if "s" in c or "i" in c or "variant" in c]
                 if len(pick) == 1:
                     return pick[0]
                 if cs:
